@@ -197,6 +197,7 @@ func (_this *cteListener) ExitValueInt(ctx *parser.ValueIntContext) {
 
 	str := ctx.GetText()
 	str = strings.ReplaceAll(str, "_", "")
+	str = stripDecimalLeadingZeros(str)
 	isNegative := false
 	if str[0] == '-' {
 		isNegative = true
@@ -1097,7 +1098,7 @@ func (_this *cteListener) ExitCommentBlock(ctx *parser.CommentBlockContext) {
 // ---------------------------------------------------------------------------
 
 func parseSmallUint(str string) uint64 {
-	if v, err := strconv.ParseUint(str, 0, 64); err == nil {
+	if v, err := strconv.ParseUint(str, 10, 64); err == nil {
 		return v
 	} else {
 		panic(err)
@@ -1115,6 +1116,24 @@ func parseHexCodepoint(str string) rune {
 	}
 }
 
+// A decimal literal may have leading zeros ("010" is ten). The base-0 modes of
+// strconv and math/big would read such text as legacy octal, so strip them.
+func stripDecimalLeadingZeros(str string) string {
+	sign := ""
+	digits := str
+	if len(digits) > 0 && (digits[0] == '-' || digits[0] == '+') {
+		sign = digits[:1]
+		digits = digits[1:]
+	}
+	if len(digits) < 2 || digits[0] != '0' || digits[1] < '0' || digits[1] > '9' {
+		return str
+	}
+	for len(digits) > 1 && digits[0] == '0' && digits[1] >= '0' && digits[1] <= '9' {
+		digits = digits[1:]
+	}
+	return sign + digits
+}
+
 func appendUID(str string, dst []byte) []byte {
 	endpoints := []int{-1, 8, 13, 18, 23, 36}
 	for iEndpoint := 0; iEndpoint < len(endpoints)-1; iEndpoint++ {
@@ -1130,6 +1149,9 @@ func appendUID(str string, dst []byte) []byte {
 }
 
 func parseUintElement(str string, base int, bitSize int, result []byte) []byte {
+	if base == 0 {
+		str = stripDecimalLeadingZeros(str)
+	}
 	element, err := strconv.ParseUint(str, base, bitSize)
 	if err != nil {
 		panic(fmt.Errorf("error parsing uint element: %v", err))
@@ -1149,6 +1171,9 @@ func parseUintElement(str string, base int, bitSize int, result []byte) []byte {
 }
 
 func parseIntElement(str string, base int, bitSize int, result []byte) []byte {
+	if base == 0 {
+		str = stripDecimalLeadingZeros(str)
+	}
 	element, err := strconv.ParseInt(str, base, bitSize)
 	if err != nil {
 		panic(fmt.Errorf("error parsing int element: %v", err))
